@@ -32,7 +32,9 @@ Conf2 == {"none", "validFirst", "validSecond"}
 \* (The library takes exactly one statement: two are refused as such, which the acceptance side leaves open.)
 Stmt2 == {"none", "valid", "expired"}
 Scn == [present : SUBSET Bounds, focus : Focus, d : Ds, k : Ks, slack : Slacks, spelling : Spellings, conf2 : Conf2, stmt2 : Stmt2,
-        tz : {"UTC", "east9", "west5"}]          \* time zone of the SP process: instants are UTC whatever it is
+        tz : {"UTC", "east9", "west5"},          \* time zone of the SP process: instants are UTC whatever it is
+        \* the Conditions element holds an AudienceRestriction, or nothing but its two time attributes
+        condKids : {"audience", "none"}]
 
 Comfort(b) == IF b \in {"cNB", "sNB"} THEN -3 * Day ELSE 3 * Day
 
@@ -60,6 +62,8 @@ WellFormed(s) ==
     /\ (s.focus \in {"issueLow", "issueHigh"} => s.d # -Far)
     /\ (s.d \in {EpochD, Y2038D} => /\ s.focus \in {"cNOOA", "sNOOA", "sess"} /\ s.slack = 0 /\ s.k = 0 /\ s.spelling = "Z"
                                     /\ s.conf2 = "none" /\ s.stmt2 = "none" /\ s.tz = "UTC")
+    /\ (s.condKids = "none" => /\ s.focus \in {"cNB", "cNOOA", "cOrder"} /\ s.k = 0 /\ s.spelling = "Z" /\ s.conf2 = "none" /\ s.stmt2 = "none"
+                               /\ s.tz = "UTC" /\ s.slack \in {0, 60} /\ s.d \notin {EpochD, Y2038D})
     /\ (s.conf2 # "none" => s.focus \in {"sNOOA", "sNB", "sOrder"} /\ s.k = 0 /\ s.spelling = "Z")
     /\ (s.spelling \in {"offPlus", "offMinus"} => s.k = 0 /\ s.slack \in {0, 60})
     /\ (s.tz # "UTC" => s.conf2 = "none" /\ s.stmt2 = "none" /\ s.k = 0 /\ s.spelling = "Z" /\ s.slack \in {0, 60} /\ s.d \in {-2, 2, -Far, Far})
@@ -131,7 +135,8 @@ ExpectedExpiry == IF P("sess") THEN V("sess") ELSE V("cNOOA")
 
 Emit == /\ pc = "done" /\ pc' = "emitted"
         /\ PrintT(<<"CASE", ToJson([scn |-> [present |-> scn.present, focus |-> scn.focus, d |-> scn.d, k |-> scn.k,
-                                             slack |-> scn.slack, spelling |-> scn.spelling, conf2 |-> scn.conf2, stmt2 |-> scn.stmt2, tz |-> scn.tz],
+                                             slack |-> scn.slack, spelling |-> scn.spelling, conf2 |-> scn.conf2, stmt2 |-> scn.stmt2, tz |-> scn.tz,
+                                             condKids |-> scn.condKids],
                                     vals |-> [b \in Bounds |-> IF P(b) THEN ToString(V(b)) ELSE "absent"], issue |-> Issue(scn),
                                     model |-> verdict, mustAccept |-> MustAccept, mustReject |-> MustReject,
                                     expiry |-> IF ExpiryKnown THEN ToString(ExpectedExpiry) ELSE "unspecified"])>>)
